@@ -316,7 +316,30 @@ func (c *Ctx) c16BuiltinNamedVars() {
 	}
 }
 
+// c16OpenFinding replays the recorded, unrepaired defect struct-before-named-scalar-type: the position of a struct-type
+// declaration relative to the declaration of a named non-struct type it uses changes the program
+func (c *Ctx) c16OpenFinding() {
+	const id = "struct-before-named-scalar-type"
+	a := "type A struct {\n\tc Celsius\n\tn int\n}"
+	cel := "type Celsius float64"
+	main := "func Main() {\n\ta := &A{}\n\ta.c += 1.5\n\tx := a.c / 2\n\tprintln(a.c, x, a.n)\n}"
+	run := func(order ...string) string {
+		return c16Run(fstest.MapFS{"app/a.go": &fstest.MapFile{Data: []byte("package app\n\n" + strings.Join(order, "\n\n") + "\n")}})
+	}
+	first, after := run(cel, a, main), run(a, cel, main)
+	c.Rep.Oracle["open-finding-witness"]++
+	if first == after && first == "1.5 0.75 0\n" {
+		return // no longer fails
+	}
+	if f, ok := c.Findings[id]; ok && first == "1.5 0.75 0\n" {
+		c.Rep.Known = append(c.Rep.Known, id+": "+f.What+" (witness: Celsius declared first prints "+strings.TrimSpace(first)+", declared after the struct "+strings.TrimSpace(after)+")")
+		return
+	}
+	c.Rep.Violate(Violation{Kind: "oracle", Cut: "open-finding-witness", Input: "type A struct { c Celsius; n int } before / after type Celsius float64", Impl: after, Oracle: first})
+}
+
 func runC16(c *Ctx) error {
+	c.c16OpenFinding()
 	c.c16BuiltinNamed()
 	c.c16BuiltinNamedVars()
 	c.Rep.Rule = "tsort: random lists of top-level node kinds (all table kinds, statement kinds, unknown kinds), length 0..40, permutation compared with the model; packages: generated packages (struct types, methods, mutually referring functions incl. forward references, chained consts, var initialisers with printed side effects, init) under random permutations of the hoistable declarations x random partitions into 1..4 files, the package loaded directly or imported from a nested / vendored path (import path differs from the package name); distinct = distinct kind list / (package, permutation, partition); non-trivial = list has >= 2 different priorities / package has >= 6 declarations"
